@@ -279,7 +279,12 @@ func c04Random(r *rt.Rand) (*gen.Node, string) {
 			gen.Call("lower", gen.Bin("+", gen.Str("A"), gen.Str("b"))), gen.Call("is_float", gen.Str("1.5")), gen.Call("int", gen.Bin("+", gen.Int(1), gen.Int(2))), gen.Call("float", gen.Int(3)), gen.Call("join", gen.Str(","), gen.Int(1), gen.Str("a")), gen.Call("strlen", gen.Call("upper", gen.Str("abc"))),
 			// type tests over constants of every kind (an integer is not a float, whatever its text looks like)
 			gen.Call("is_float", gen.Bin("+", gen.Int(1), gen.Int(2))), gen.Call("is_float", gen.Call("strlen", gen.Str("ab"))), gen.Call("is_int", gen.Bin("*", gen.Int(2), gen.Int(3))), gen.Call("is_int", gen.Float("2.5")),
-			gen.Call("is_float", gen.Bin("+", gen.Float("0.5"), gen.Float("0.5"))), gen.Call("is_int", gen.Str("12")), gen.Call("is_float", gen.Str("7")), gen.Call("is_int", gen.Call("float", gen.Int(3)))}
+			gen.Call("is_float", gen.Bin("+", gen.Float("0.5"), gen.Float("0.5"))), gen.Call("is_int", gen.Str("12")), gen.Call("is_float", gen.Str("7")), gen.Call("is_int", gen.Call("float", gen.Int(3))),
+			// a constant call is folded through the function's row version and evaluated unfolded through its
+			// vector twin in batch mode: arguments at and beyond the ends of the text
+			gen.Call("substr", gen.Str("hello"), gen.Int(2), gen.Int(4)), gen.Call("substr", gen.Str("ab"), gen.Int(1), gen.Int(2)), gen.Call("substr", gen.Str("hello"), gen.Int(1), gen.Int(5)),
+			gen.Call("substr", gen.Str("hello"), gen.Int(0), gen.Int(3)), gen.Call("substr", gen.Str("hello"), gen.Int(4), gen.Int(9)), gen.Call("substr", gen.Str("hello"), gen.Int(5), gen.Int(1)),
+			gen.Call("len", gen.Call("split", gen.Str("a,b,,c"), gen.Str(","))), gen.Call("strlen", gen.Int(12345)), gen.Call("strlen", gen.Bin("*", gen.Int(25), gen.Int(4))), gen.Call("str", gen.Call("strlen", gen.Str("h\xc3\xa9llo")))}
 		t := calls[r.Intn(len(calls))]
 		switch t.T {
 		case gen.TN:
